@@ -117,6 +117,10 @@ pub trait Engine: Sync + Send {
     fn case_timeout_s(&self) -> u64 {
         20
     }
+    /// stack size of the thread that runs a unit or an explicit case
+    fn stack_bytes(&self) -> usize {
+        8 << 20
+    }
     /// extra evidence keys computed by the driver from merged stats
     fn extra_evidence(&self, _stats: &BTreeMap<String, u64>) -> Value {
         json!({})
